@@ -5,9 +5,9 @@
 //! call trace, statistics), concurrency::{parallel_map, join_all, parallel_reduce}, spawn_batch; Pipeline::process_batch / execute_single /
 //! execute_two_stage (error identities, statistics), execute_stream (join loop), BatchCollector (also against the real clock);
 //! the yielding loops of fiber_yield.rs, FiberIoUtils::batch_process and the `buffered` window of concurrent_with_yield /
-//! process_files_parallel (c18_yield.rs).
+//! process_files_parallel, AsyncMemoryBlobStore histories with put_batch / get_batch (c18_yield.rs).
 //! S-only cells (direct oracle): the running executor on tokio runtimes, one queue under OS threads, BatchCollector with its
-//! background checker on two threads, AsyncMemoryBlobStore batches.
+//! background checker on two threads.
 use crate::util::*;
 use serde_json::{json, Value};
 use std::future::Future;
@@ -42,7 +42,7 @@ Definition ok (c : case_t) : bool :=
 }
 
 /// number of Coq case kinds (see coq/C18/ModelCases.v)
-const NK: usize = 22;
+const NK: usize = 23;
 
 struct Ctx {
     sum: Summary,
@@ -1342,8 +1342,8 @@ fn helper_case(cx: &mut Ctx, which: u64, rt: usize, limit: usize, xs: &[i64]) {
                 "YieldingIterator", "FiberIoUtils::batch_process", "FiberIoUtils::process_files_parallel", "AsyncMemoryBlobStore::put_batch/get_batch"][which as usize];
     let case = json!({"cell": "helper", "kind": 14, "which": which, "rt": rt, "limit": limit, "ops": xs});
     cx.sum.eval(cell, &format!("hp {} {} {} {:?}", which, rt, limit, xs), xs.len() >= 2);
-    // which 0..5 are M+S since coq/C18/ModelYield.v (the Coq cases come from c18_yield.rs; this cell is their timing-based oracle)
-    cx.sum.cell_status(cell, if which == 6 { "S-only" } else { "M+S" });
+    // all M+S since coq/C18/ModelYield.v / ModelStore.v (the Coq cases come from c18_yield.rs; this cell is their timing-based oracle)
+    cx.sum.cell_status(cell, "M+S");
     let xv = xs.to_vec();
     let n = xs.len();
     let r = guarded(|| with_rt(rt, async move {
@@ -1463,6 +1463,7 @@ fn run_one(cx: &mut Ctx, c: &Value) {
         }
         "collector_checker" => collector_checker_case(cx, u(&c["maxb"], 2).max(1) as usize, ops.len(), u(&c["pause_every"], 3) as usize, u(&c["timeout_ms"], 2)),
         "yieldtrace" => ym::yield_trace_case(cx, match u(&c["which"], 1) { w @ (1 | 2 | 3 | 4 | 7 | 8 | 9 | 10 | 11) => w, _ => 1 }, u(&c["limit"], 1) as usize, &ops, true),
+        "storehist" => ym::store_case(cx, u(&c["preset"], 0).min(2), &ops, true),
         "buffered" => ym::buffered_case(cx, if u(&c["which"], 0) == 0 { 0 } else { 5 }, u(&c["limit"], 1) as usize, &ops, &ints(&c["gates"]), true),
         "helper" => helper_case(cx, u(&c["which"], 0).min(6), u(&c["rt"], 0) as usize, u(&c["limit"], 1) as usize, &ops),
         _ => {}
@@ -1507,6 +1508,7 @@ pub fn run(args: &Args) {
             b[18] = if args.thorough { 200 } else { 24 }; // concurrency::parallel_reduce
             b[19] = if args.thorough { 900 } else { 90 }; // yielding loops driven by hand
             b[20] = if args.thorough { 600 } else { 90 }; // buffered(max_concurrent) over gated operations
+            b[21] = if args.thorough { 300 } else { 70 }; // AsyncMemoryBlobStore histories
             b
         },
         used: [0; NK],
